@@ -593,9 +593,11 @@ class Plumbing:
                 c = prog.class_of_name(f.module, dotted(val.func) or "")
                 if c is not None and "__init__" in c.methods:
                     ci = c.methods["__init__"]
-                    for i, a in enumerate(val.args):
-                        if i < len(ci.bound_params):
-                            q = ci.bound_params[i]
+                    if any(isinstance(a, ast.Starred) for a in val.args) or any(k.arg is None for k in val.keywords):
+                        raise AnalysisError(f"{f.loc(val)}: starred arguments in the construction of {c.name}; cannot map constructor parameters")
+                    bound_ = [(ci.bound_params[i], a) for i, a in enumerate(val.args) if i < len(ci.bound_params)] + [(k.arg, k.value) for k in val.keywords if k.arg in ci.bound_params]
+                    for q, a in bound_:
+                        if True:
                             sub_attrs = set()
                             for s2 in walk_scope(ci.node):
                                 if isinstance(s2, (ast.Assign, ast.AnnAssign)):
